@@ -19,6 +19,7 @@ import SwcVerif.Model.AlgoRunTraverse
 import SwcVerif.Model.AlgoRunSort
 import SwcVerif.Model.AlgoRunSubtree
 import SwcVerif.Model.AlgoRunPopulation
+import SwcVerif.Model.AlgoRunPopFront
 import SwcVerif.Model.AlgoRunNormalizer
 import SwcVerif.Model.AlgoRunBranches
 import SwcVerif.Model.AlgoRunRedirect
@@ -73,6 +74,9 @@ def dispatch (op : String) (args : List String) : String :=
   | "gtosub" => AlgoRun.handleToSub args
   | "glazy" => AlgoRun.handleLazy args
   | "gchain" => AlgoRun.handleChain args
+  | "gpopfront" => AlgoRun.handlePopFront args
+  | "gtopop" => AlgoRun.handleToPop args
+  | "gfromswc" => AlgoRun.handleFromSwc args
   | "gredirect" => AlgoRun.handleRedirect args
   | "gviews" => AlgoRun.handleViews args
   | "gslice" => AlgoRun.handleSlice args
